@@ -473,7 +473,7 @@ int main(int argc, char ** argv)
       return ex.ReplayFile(d);
    }
    // depth per explored space {quick, thorough}; share of the time budget
-   static const int depths[NUM_PROFILES][2] = { {3, 4}, {4, 5}, {4, 5} };
+   static const int depths[NUM_PROFILES][2] = { {3, 3}, {4, 5}, {4, 5} };   // thorough full alphabet: 3 from every start state, 4 from three of them (below)
    static const double share[NUM_PROFILES] = { 0.60, 0.20, 0.20 };
    double used = 0.0;
    for (int prof = 0; prof < NUM_PROFILES; prof++) {
@@ -491,19 +491,20 @@ int main(int argc, char ** argv)
       const int runs = split ? all.NumStarts() : 1;
       const double t0 = verif::NowS();
       verif::Part M; M.name = ProfileName(prof); M.bound_completed = depth; M.exhaustive = true;
-      std::vector<unsigned long long> perDepth; unsigned long long disabled = 0, replayChecks = 0, violating = 0; std::string lowerRuns;
+      std::vector<unsigned long long> perDepth; unsigned long long disabled = 0, replayChecks = 0, violating = 0; std::string deeperRuns;
       for (int r = 0; r < runs; r++) {
          const PulseModel model(prof, args.Thorough(), split ? r : -1);
-         // thorough full alphabet: depth 4 from the empty start state, the two-level tree and the pending-pulse state, depth 3 (= quick) from
-         // the star, the chain and the offline-built subtree (depth 4 from all six: 2.1e8 transitions, 15 min, run once clean; `--depth-full-alphabet 4`)
-         const int runDepth = (split && !overridden && prof == P_FULL && (r == 1 || r == 2 || r == 4)) ? depth - 1 : depth;
+         // thorough full alphabet: one operation deeper from the empty start state, the two-level tree and the pending-pulse state than from
+         // the star, the chain and the offline-built subtree (depth 4 from all six: 2.1e8 transitions, 15 min, 16 GB unsplit; run once, clean: `--depth-full-alphabet 4`)
+         const bool deeper = split && !overridden && prof == P_FULL && (r == 0 || r == 3 || r == 5);
+         const int runDepth = deeper ? depth + 1 : depth;
          const std::string runName = split ? verif::Fmt("%s@%d", ProfileName(prof), r) : std::string(ProfileName(prof));
          seqx::Explorer<PulseModel> ex(model, args, res, runName);
          ex.SetDeadline(args.t0 + args.deadline * 0.9 * (from + share[prof] * (double)(r + 1) / (double)runs));
          const seqx::Stats S = ex.Run(runDepth);
          verif::Part P = res.parts.back(); res.parts.pop_back();
          if (P.exhaustive && P.bound_completed < runDepth) P.bound_completed = runDepth;   // frontier ran empty before the bound
-         if (runDepth < depth) { lowerRuns += (lowerRuns.empty() ? "" : ",") + verif::Fmt("%d", r); if (P.exhaustive) P.bound_completed = depth; }   // reported separately in the rule
+         if (deeper && P.exhaustive) deeperRuns += (deeperRuns.empty() ? "" : ",") + verif::Fmt("%d", r);   // reported in the rule; bound_completed stays the bound common to all start states
          M.states += P.states; M.transitions += P.transitions; M.evaluations += P.evaluations; if (P.distinct_outcomes > M.distinct_outcomes) M.distinct_outcomes = P.distinct_outcomes;
          if (P.bound_completed < M.bound_completed) M.bound_completed = P.bound_completed;
          if (!P.exhaustive) { M.exhaustive = false; M.cap += (M.cap.empty() ? "" : "; ") + (split ? runName + ": " : std::string()) + P.cap; }
@@ -511,7 +512,7 @@ int main(int argc, char ** argv)
          if (!split) M.samples = P.samples;
          for (size_t i = 0; i < S.statesPerDepth.size(); i++) { if (perDepth.size() <= i) perDepth.push_back(0); perDepth[i] += S.statesPerDepth[i]; }
          disabled += S.disabled; replayChecks += S.replayChecks; violating += S.violations;
-         fprintf(stderr, "C20 %s: ops=%d states=%llu transitions=%llu depth=%d exhaustive=%d outcomes=%llu violations=%llu wall=%.1fs\n", runName.c_str(), model.NumOps(), (unsigned long long)S.states, (unsigned long long)S.transitions, S.depthCompleted, (int)S.exhaustive, (unsigned long long)S.distinctOutcomes, (unsigned long long)S.violations, P.wall_s);
+         if (split) fprintf(stderr, "C20 %s: ops=%d states=%llu transitions=%llu depth=%d exhaustive=%d outcomes=%llu violations=%llu wall=%.1fs\n", runName.c_str(), model.NumOps(), (unsigned long long)S.states, (unsigned long long)S.transitions, S.depthCompleted, (int)S.exhaustive, (unsigned long long)S.distinctOutcomes, (unsigned long long)S.violations, P.wall_s);
       }
       M.wall_s = verif::NowS() - t0;
       const PulseModel & model = all;
@@ -522,7 +523,7 @@ int main(int argc, char ** argv)
       P.rule = verif::Fmt("every sequence of <=%d operations from a %d-operation alphabet applied to a real tree of 5 PulseNodes (root + 4 attachable, depth <=3) driven through a PulseNodeManager subclass with a simulated clock, from each of %d start states (", depth, model.NumOps(), model.NumStarts());
       for (int s = 0; s < model.NumStarts(); s++) P.rule += (s ? "; " : "") + model.StartName(s);
       P.rule += std::string("). Alphabet: ") + what + ". States deduplicated on (tree shape, per node requested/returned/aggregate time relative to now, valid flag, child-list membership and position, armed actions, cycle phase, disturbed marks), minimised over the 24 relabellings of the interchangeable nodes 1..4; a state is non-trivial when its canonical form is new";
-      if (!lowerRuns.empty()) P.rule += verif::Fmt("; BOUND PER START STATE: <=%d operations from start states other than {%s}, <=%d operations from start states {%s} (0-based, in the order listed)", depth, lowerRuns.c_str(), depth - 1, lowerRuns.c_str());
+      if (!deeperRuns.empty()) P.rule += verif::Fmt("; ADDITIONALLY every sequence of <=%d operations from start states {%s} (0-based, in the order listed) -- included in the counters", depth + 1, deeperRuns.c_str());
       if (split) P.rule += "; explored separately from each start state, `states` is the sum over the start states (a state reachable from two start states counts twice), `distinct_outcomes` the maximum";
       std::string spd = "["; for (size_t i = 0; i < perDepth.size(); i++) { if (i) spd += ","; spd += verif::Fmt("%llu", perDepth[i]); } spd += "]";
       P.extra["new_states_per_depth"] = spd;
